@@ -70,7 +70,7 @@ LEAN_NS = {"Fq2": "Fq2", "Fq6": "Fq6", "Fq12": "Fq12", "Projective<Fq>": "Proj",
 # ----------------------------------------------------------------------------- AST loading
 def load_ast(repo, relpath, filt):
     cmd = ["clang++-14", "-std=gnu++17", "-I", os.path.join(repo, "include"), "-fsyntax-only",
-           "-Xclang", "-ast-dump=json", "-Xclang", "-ast-dump-filter=" + filt, os.path.join(repo, relpath)]
+           "-Xclang", "-ast-dump=json"] + (["-Xclang", "-ast-dump-filter=" + filt] if filt else []) + [os.path.join(repo, relpath)]
     r = subprocess.run(cmd, capture_output=True, text=True)
     if r.returncode != 0:
         raise TranslateError("clang failed on %s: %s" % (relpath, r.stderr[:2000]))
@@ -398,6 +398,14 @@ class FnTranslator:
         fn = strip_casts(n["inner"][0]); name = fn["referencedDecl"]["name"]; args = n["inner"][1:]
         if name == "fp_inverse":
             self.classes.add("Inv"); self.assign(self.loc(args[0]), "%s⁻¹" % self.value(args[1]), "inv"); return
+        if name == "exp_by_x_restrict":
+            # a bounded loop over the bits of bls_x: modelled by hand (Impl/ExpByX.lean); the template arguments are
+            # read from the specialization the compiler resolved this call to
+            spec = getattr(self.u, "free_spec", {}).get(fn["referencedDecl"]["id"])
+            if spec is None: raise TranslateError("cannot resolve the specialization of exp_by_x_restrict")
+            shift, sq = spec[1][0], spec[1][1]
+            self.classes |= {"Add", "Sub", "Mul", "Neg", "Zero", "One"}
+            self.assign(self.loc(args[0]), "Jedi.Impl.expByX %d %s %s" % (int(shift), "true" if int(sq) != 0 else "false", self.value(args[1])), "expx"); return
         sig = self.u.free_sig(name)
         lname = self.u.need_free(name); self.calls.append(lname)
         outs = [i for i, p in enumerate(sig.params) if p["ref"] and not p["const"]]
@@ -539,6 +547,30 @@ class FnTranslator:
                 self.store.declare("this", sig.cls)
                 self.out_roots.append("this")
         done_alias = False
+        if not sig.is_method and self.alias_set:
+            # free function: the first mutable reference parameter plays the role of `this`
+            outp = [p for p in sig.params if p["ref"] and not p["const"] and p["ctype"] not in ("uint", "bool")][0]
+            first = self.alias_set[0]
+            self.rootmap[outp["name"]] = outp["name"]; self.store.declare(outp["name"], outp["ctype"], first)
+            self.out_roots.append(outp["name"])
+            for p in sig.params:
+                if p["name"] == outp["name"]: continue
+                if p["name"] in self.alias_set:
+                    self.rootmap[p["name"]] = outp["name"]
+                    if not done_alias: params_lean.append((p["name"], p["ctype"])); done_alias = True
+                    continue
+                self.rootmap[p["name"]] = p["name"]
+                if p["ref"] and not p["const"] and p["ctype"] not in ("uint", "bool"): self.out_roots.append(p["name"])
+                self.store.declare(p["name"], p["ctype"], p["name"]); params_lean.append((p["name"], p["ctype"]))
+            self.final = None
+            body = body_of(sig.decl)
+            self.stmts(body.get("inner", []), None)
+            if not getattr(self, "done_final", False):
+                if self.final is None: self.final = self.ret_expr(None)
+                self.lines.append(self.final)
+            tys = [STRUCTS[self.store.types[r]][0] for r in self.out_roots]
+            self.params_lean = params_lean; self.rty = tys[0] if len(tys) == 1 else " × ".join("(%s)" % t for t in tys)
+            return self
         for p in sig.params:
             if p["name"] in self.alias_set:
                 self.rootmap[p["name"]] = "this"
@@ -576,7 +608,7 @@ class Unit:
             self.index(o)
     def index(self, o, cls=None):
         k = o.get("kind")
-        if k in ("CXXRecordDecl", "ClassTemplateSpecializationDecl", "NamespaceDecl", "ClassTemplateDecl", "LinkageSpecDecl"):
+        if k in ("CXXRecordDecl", "ClassTemplateSpecializationDecl", "NamespaceDecl", "ClassTemplateDecl", "LinkageSpecDecl", "TranslationUnitDecl"):
             name = o.get("name")
             c = cls
             if k == "CXXRecordDecl" and name in ("Fq2", "Fq6", "Fq12"): c = name
@@ -604,7 +636,13 @@ class Unit:
             if body_of(o) is not None: self.free[o["name"]] = o
             return
         if k == "FunctionTemplateDecl":
-            for ch in o.get("inner", []): self.index(ch, cls)
+            for ch in o.get("inner", []):
+                if ch.get("kind") == "FunctionDecl":
+                    targs = [a.get("value") for a in ch.get("inner", []) if a.get("kind") == "TemplateArgument"]
+                    if not hasattr(self, "free_spec"): self.free_spec = {}
+                    self.free_spec[ch.get("id")] = (o.get("name"), targs)
+                else:
+                    self.index(ch, cls)
     def index_ctx(self, o, cls=None):
         """record ids of record decls so out-of-line methods can find their class"""
         if not hasattr(self, "ctx"): self.ctx = {}
@@ -648,11 +686,11 @@ class Unit:
         if key not in self.done and key not in self.pending:
             self.pending.append(key); self.translate(key)
         return name
-    def need_free(self, fname):
-        key = ("f", fname)
+    def need_free(self, fname, alias=()):
+        key = ("f", fname) if not alias else ("f", fname, tuple(alias))
         if key not in self.done and key not in self.pending:
             self.pending.append(key); self.translate(key)
-        return fname
+        return fname + ("_o" + "".join(alias) if alias else "")
     def translate(self, key):
         if key[0] == "m":
             _, cls, method, nargs, alias, kind = key
@@ -660,7 +698,8 @@ class Unit:
             t = FnTranslator(self, sig, alias, self.lean_name(cls, method, alias, kind)).run()
         else:
             sig = self.free_sig(key[1])
-            t = FnTranslator(self, sig, (), key[1]).run()
+            al = key[2] if len(key) > 2 else ()
+            t = FnTranslator(self, sig, al, key[1] + ("_o" + "".join(al) if al else "")).run()
         self.done[key] = t; self.order.append(key)
         self.pending.remove(key)
 
@@ -898,6 +937,28 @@ def gen_curve(repo, outdir):
     with open(os.path.join(outdir, "curve_functions.json"), "w") as f: json.dump(recs, f, indent=1)
     return u, table, changed
 
+def gen_pairing(repo, outdir):
+    u = Unit(repo)
+    objs = []
+    # one dump of the whole translation unit, so that declaration ids (template specializations!) are consistent
+    objs += load_ast(repo, "src/bls12_381/pairing.cpp", None)
+    for (s_, filt) in (("src/bls12_381/fq2.cpp", NS + "Fq2"), ("src/bls12_381/fq6.cpp", NS + "Fq6"), ("src/bls12_381/fq12.cpp", NS + "Fq12"),
+                       ("src/bls12_381/fq12_cyclotomic.cpp", NS + "Fq12")):
+        objs += load_ast(repo, s_, filt)
+    for o in objs: u.index_ctx(o)
+    for o in objs: u.index(o)
+    u.out_only = {("miller_doubling_step", "result"), ("miller_addition_step", "result"), ("final_exponentiation", "result")}
+    names = []
+    for fn in ("miller_doubling_step", "miller_addition_step", "ell", "final_exponentiation"):
+        names.append(u.need_free(fn))
+    # pairing() calls final_exponentiation(result, result)
+    u.out_only = {("miller_doubling_step", "result"), ("miller_addition_step", "result")}
+    names.append(u.need_free("final_exponentiation", ("a",)))
+    u.order = [k for k in u.order if k[0] == "f"]
+    text = HEADER % ("pairing.cpp: miller_doubling_step, miller_addition_step, ell, final_exponentiation", "import JediVerif.Gen.TowerGen\nimport JediVerif.Impl.ExpByX") + u.emit() + "\nend Jedi.Gen\n"
+    changed = write_if_changed(os.path.join(outdir, "PairingGen.lean"), text)
+    return u, names, changed
+
 if __name__ == "__main__":
     repo = sys.argv[1] if len(sys.argv) > 1 else "/repo"
     outdir = sys.argv[2] if len(sys.argv) > 2 else os.path.join(VERIF, "lean/JediVerif/Gen")
@@ -911,6 +972,11 @@ if __name__ == "__main__":
     except TranslateError as e:
         print("cxx2lean: TRANSLATION FAILED (curve):", e); sys.exit(2)
     print("cxx2lean: curve: %d functions -> %s/CurveGen.lean%s" % (len(u2.order), outdir, "" if changed2 else " (unchanged)"))
+    try:
+        u3, names3, changed3 = gen_pairing(repo, outdir)
+    except TranslateError as e:
+        print("cxx2lean: TRANSLATION FAILED (pairing):", e); sys.exit(2)
+    print("cxx2lean: pairing: %d functions -> %s/PairingGen.lean%s" % (len(u3.order), outdir, "" if changed3 else " (unchanged)"))
     table = table + table2
     for t in table:
         if t[5]: sys.stdout.write("cxx2lean: UNTRANSLATABLE-VARIANT %s: %s\n" % (t[0], t[5]))
